@@ -620,7 +620,9 @@ class NormalFormGame:
                         'by a square matrix'
                     )
                 N = 2
-                self.players = tuple(Player(data) for i in range(N))
+                # Each player holds its own array, so that `__setitem__`
+                # on one profile does not alter the mirrored profile
+                self.players = tuple(Player(data.copy()) for i in range(N))
                 self.dtype = data.dtype
 
             else:  # data represents a payoff array
